@@ -51,3 +51,248 @@ Example C19_nonvacuous :
   code_of [EGetStatus 1; EExecute 1; ERemove 1; EFailure 1 0; ERemove 3; EFailure 3 0] = 1 /\
   code_of [EGetStatus 1; EExecute 1; ESave 1; ESuccess 1] = 0.
 Proof. vm_compute. auto. Qed.
+
+(* ====================================================================================================
+   Reporter layer (Model/Report.v, proofs in Proofs/ReportP.v): what the built-in reporters WRITE when
+   they are driven by the callback sequences of the runner models above.
+   [report ti proc kind fv tr] = state of reporter class [kind] and of the process's real stdout / stderr
+   after `doit run` made the reports [tr] (Runner.finish order: close -> teardown -> complete_run, then
+   the exception that leaves run_all, if any); [ti] = what the reporters read from the Task objects.
+   ==================================================================================================== *)
+From DoitV Require Import Report ReportP.
+
+(* Every run of both runner models feeds a reporter with an event list of this shape:
+     body ++ [DB closed] ++ teardowns of the main runner ++ [error marker],
+   in which get_status(k) is reported once and before any other report about k ([gsok]), and every task
+   has at most one final report ([fonce]).  Serial runner, any table / flags / oracles / selection, fuel
+   not exhausted: *)
+Theorem C19_serial_reporter_input :
+  forall tasks wake_rank calc_rank continue_ always fuel selection,
+  let res := run_serial tasks wake_rank calc_rank continue_ always fuel selection in
+  snd res <> 99 ->
+  exists body tds mk,
+    (fst res = (body ++ EClose :: map ETeardown tds) ++ mk /\
+     forallb (fun e => negb (is_close e)) body = true /\ marker mk /\
+     gsok (body ++ EClose :: map ETeardown tds) /\ fonce (body ++ EClose :: map ETeardown tds)) /\
+    (mk = [] \/ In (snd res) [3; 4]).
+Proof. exact serial_run_events. Qed.
+Print Assumptions C19_serial_reporter_input.
+
+(* ... and the parallel runners (processes / threads), any number of workers, EVERY schedule (also the
+   ones that end by fuel or in the model's hang marker: finish() runs in run_all's `finally`) *)
+Theorem C19_parallel_reporter_input :
+  forall tasks wake_rank calc_rank continue_ always proc fuel nprocs sched selection,
+  let res := run_parallel tasks wake_rank calc_rank continue_ always proc fuel nprocs sched selection in
+  exists body tds mk,
+    (events_of (fst res) = (body ++ EClose :: map ETeardown tds) ++ mk /\
+     forallb (fun e => negb (is_close e)) body = true /\ marker mk /\
+     gsok (body ++ EClose :: map ETeardown tds) /\ fonce (body ++ EClose :: map ETeardown tds)) /\
+    (mk = [] \/ In (snd res) [3; 4]).
+Proof. exact parallel_run_events. Qed.
+Print Assumptions C19_parallel_reporter_input.
+
+(* `--reporter json`, EVERY event list of that shape (hence every run of both runner models), every task
+   attribute table, both placements of the actions (main process / worker process):
+   - the real stdout of the process is exactly ONE JSON document and nothing else;
+   - the real stderr is empty, except for the message of the exception that leaves run_all (exit 3 / 4);
+   - no callback raised (no KeyError in t_results);
+   - the document lists a task once, and exactly the tasks get_status was reported for;
+   - a task with a final report is listed with THAT result (success / fail / up-to-date / ignore), `started`
+     iff an execute report was made, captured out/err of its actions iff it had been executed by then,
+     `error` iff it failed; a task without final report (run cut short) is listed with result null;
+   - what actions and teardowns wrote to sys.stdout / sys.stderr in the main process before complete_run,
+     and every teardown / runtime error message, is inside the document (keys out / err). *)
+Theorem C19_json_document :
+  forall ti proc fv tr body tds mk,
+  run_events tr body tds mk ->
+  let trA := body ++ EClose :: map ETeardown tds in
+  let st := report ti proc RJson fv tr in
+  let doc := doc_of ti proc fv trA in
+  w_stdout (snd st) = [ODoc doc] /\
+  w_stderr (snd st) = map OChunk (main_toks SErr (cbs ti proc mk)) /\
+  rp_crashed (fst st) = false /\
+  NoDup (map fst (d_tasks doc)) /\
+  (forall k, In k (map fst (d_tasks doc)) <-> In (EGetStatus k) trA) /\
+  (forall k pre e post, trA = pre ++ e :: post -> is_final_ev k e = true ->
+     In (k, Build_trec (res_of e) (mem k (execs trA))
+                       (if mem k (execs pre) then ta_out (ti k) else [])
+                       (if mem k (execs pre) then ta_err (ti k) else []) (err_of e)) (d_tasks doc)) /\
+  (forall k, In (EGetStatus k) trA -> ~ finished_in trA k ->
+     In (k, Build_trec None (mem k (execs trA)) [] [] None) (d_tasks doc)) /\
+  d_out doc = main_toks SOut (cbs ti proc trA) /\
+  d_err doc = main_toks SErr (cbs ti proc trA) ++ err_msgs (cbs ti proc trA).
+Proof. exact json_of_run. Qed.
+Print Assumptions C19_json_document.
+
+(* the same composed with the serial runner and read over its whole trace: one document; nothing on
+   stderr unless the run ended in an exception (exit 3 / 4); each task that got a final report is listed
+   with that result; nothing is listed that was not processed; result null only without final report;
+   every chunk the main process wrote during the run is in the document *)
+Theorem C19_json_serial :
+  forall tasks wake_rank calc_rank continue_ always fuel selection ti fv,
+  let run := run_serial tasks wake_rank calc_rank continue_ always fuel selection in
+  let st := report ti false RJson fv (fst run) in
+  snd run <> 99 ->
+  exists doc,
+    w_stdout (snd st) = [ODoc doc] /\
+    (w_stderr (snd st) = [] \/ In (snd run) [3; 4]) /\
+    rp_crashed (fst st) = false /\
+    NoDup (map fst (d_tasks doc)) /\
+    (forall k e, In e (fst run) -> is_final_ev k e = true ->
+       exists v, In (k, v) (d_tasks doc) /\ tr_result v = res_of e /\ tr_started v = mem k (execs (fst run)) /\
+                 tr_error v = err_of e) /\
+    (forall k v, In (k, v) (d_tasks doc) -> In (EGetStatus k) (fst run)) /\
+    (forall k v, In (k, v) (d_tasks doc) -> tr_result v = None -> ~ finished_in (fst run) k).
+Proof. exact json_serial. Qed.
+Print Assumptions C19_json_serial.
+
+(* ... and with the parallel runners, every schedule (reports crossing the result queue) *)
+Theorem C19_json_parallel :
+  forall tasks wake_rank calc_rank continue_ always proc fuel nprocs sched selection ti fv,
+  let run := run_parallel tasks wake_rank calc_rank continue_ always proc fuel nprocs sched selection in
+  let tr := events_of (fst run) in
+  let st := report ti proc RJson fv tr in
+  exists doc,
+    w_stdout (snd st) = [ODoc doc] /\
+    (w_stderr (snd st) = [] \/ In (snd run) [3; 4]) /\
+    rp_crashed (fst st) = false /\
+    NoDup (map fst (d_tasks doc)) /\
+    (forall k e, In e tr -> is_final_ev k e = true ->
+       exists v, In (k, v) (d_tasks doc) /\ tr_result v = res_of e /\ tr_started v = mem k (execs tr) /\
+                 tr_error v = err_of e) /\
+    (forall k v, In (k, v) (d_tasks doc) -> In (EGetStatus k) tr) /\
+    (forall k v, In (k, v) (d_tasks doc) -> tr_result v = None -> ~ finished_in tr k).
+Proof. exact json_parallel. Qed.
+Print Assumptions C19_json_parallel.
+
+(* whatever is written to sys.stdout / sys.stderr AFTER complete_run is outside the document: it follows
+   the document on the real stdout, resp. lands on the real stderr (this is why Runner.finish must run
+   the teardowns before complete_run; the harness checks that order on the implementation) *)
+Theorem C19_json_write_after_complete_run_is_outside :
+  forall ti proc fv trA s t,
+  let st := run ti (jbefore ti proc fv trA) [CCompleteRun; CWrite s InMain t] in
+  match s with SOut => w_stdout (snd st) | SErr => w_stderr (snd st) end =
+  (match s with SOut => [ODoc (doc_of ti proc fv trA)] | SErr => [] end) ++ [OChunk (Raw t)].
+Proof. exact json_write_after_complete. Qed.
+Print Assumptions C19_json_write_after_complete_run_is_outside.
+
+(* console-family reporters (console, executed-only, zero, error-only), EVERY event list: the result
+   lines on the real stdout are, in order, exactly the lines that class shows for the reports made
+   ([shown]: `.  name` for an execute report of a non-private task with actions; `-- name` / `!! name`
+   for up-to-date / ignored (console only); the failure entry for a failure (console, executed-only,
+   error-only); nothing for ZeroReporter) *)
+Theorem C19_console_result_lines :
+  forall ti proc kind fv tr, kind <> RJson ->
+  result_lines (w_stdout (snd (report ti proc kind fv tr))) = flat_map (shown ti kind) tr.
+Proof. exact console_result_lines. Qed.
+Print Assumptions C19_console_result_lines.
+
+(* hence at most one final-result line (up-to-date / ignored / failed) and at most one `.  name` line per
+   task in every serial run ... *)
+Theorem C19_console_one_line_serial :
+  forall tasks wake_rank calc_rank continue_ always fuel selection ti kind fv k, kind <> RJson ->
+  (length (filter (final_line_of k)
+     (result_lines (w_stdout (snd (fst (report_serial tasks wake_rank calc_rank continue_ always fuel selection ti kind fv)))))) <= 1)%nat /\
+  (length (filter (exec_line_of k)
+     (result_lines (w_stdout (snd (fst (report_serial tasks wake_rank calc_rank continue_ always fuel selection ti kind fv)))))) <= 1)%nat.
+Proof. exact serial_console_one_final_line. Qed.
+Print Assumptions C19_console_one_line_serial.
+
+(* ... at most one final-result line per task in every parallel run, every schedule ... *)
+Theorem C19_console_one_line_parallel :
+  forall tasks wake_rank calc_rank continue_ always proc fuel nprocs sched selection ti kind fv k, kind <> RJson ->
+  (length (filter (final_line_of k)
+     (result_lines (w_stdout (snd (fst (report_parallel tasks wake_rank calc_rank continue_ always proc fuel nprocs sched selection ti kind fv)))))) <= 1)%nat.
+Proof. exact parallel_console_one_final_line. Qed.
+Print Assumptions C19_console_one_line_parallel.
+
+(* ... and exactly one when the task has a final report of a kind the class shows *)
+Theorem C19_console_final_line_shown :
+  forall ti kind tr k e, fonce tr -> In e tr ->
+  filter (final_line_of k) (shown ti kind e) <> [] ->
+  length (filter (final_line_of k) (flat_map (shown ti kind) tr)) = 1%nat.
+Proof. exact console_final_line_shown. Qed.
+Print Assumptions C19_console_final_line_shown.
+
+(* ZeroReporter writes no line at all on its outstream, whatever is reported *)
+Theorem C19_zero_reporter_silent :
+  forall ti proc fv tr, lines_of (w_stdout (snd (report ti proc RZero fv tr))) = [].
+Proof. exact zero_no_lines. Qed.
+Print Assumptions C19_zero_reporter_silent.
+
+(* ---- non-vacuity and witnesses ---- *)
+(* task 1 succeeds (prints 101 / 201, verbosity 2, teardown prints 301 and fails), task 2 fails (verbosity 0),
+   task 3 depends on 2 (unmet dependency), --continue *)
+Definition ex19 (n : name) : option task :=
+  match n with
+  | 1 => Some (Build_task [] [] [] true false CkRun false OOk [] [] [])
+  | 2 => Some (Build_task [] [] [] false false CkRun false OFail [] [] [])
+  | 3 => Some (Build_task [2] [] [] false false CkRun false OOk [] [] [])
+  | _ => None end.
+Definition ti19 (n : name) : tattr :=
+  match n with
+  | 1 => Build_tattr true false 2 [101] [201] [301] [] true
+  | 2 => Build_tattr true false 0 [102] [] [] [] false
+  | _ => Build_tattr true false 2 [] [] [] [] false end.
+
+Example C19_json_nonvacuous :
+  let x := report_serial ex19 (fun _ _ => 0) (fun _ => 0) true false 200 [1; 3] ti19 RJson 0 in
+  w_stdout (snd (fst x)) =
+    [ODoc {| d_tasks := [(1, Build_trec (Some JSuccess) true [101] [201] None);
+                         (2, Build_trec (Some JFail) true [102] [] (Some 0));
+                         (3, Build_trec (Some JFail) false [] [] (Some 2))];
+             d_out := [Raw 101; Raw 301];
+             d_err := [Raw 201; Line (LCleanupMsg 1)] |}] /\
+  w_stderr (snd (fst x)) = [] /\ snd x = 2.
+Proof. vm_compute. auto. Qed.
+
+(* the hypotheses of C19_json_document are met by that run *)
+Example C19_reporter_input_nonvacuous :
+  exists body tds mk,
+    run_events (fst (run_serial ex19 (fun _ _ => 0) (fun _ => 0) true false 200 [1; 3])) body tds mk /\ mk = [].
+Proof.
+  destruct (serial_run_events ex19 (fun _ _ => 0) (fun _ => 0) true false 200 [1; 3]) as (body & tds & mk & H & Hc).
+  - vm_compute. discriminate.
+  - exists body, tds, mk. split; auto. destruct Hc as [Hc|Hc]; auto. vm_compute in Hc. destruct Hc as [Hc|[Hc|[]]]; discriminate.
+Qed.
+
+Example C19_console_nonvacuous :
+  chunks_of (w_stdout (snd (fst (report_serial ex19 (fun _ _ => 0) (fun _ => 0) true false 200 [1; 3] ti19 RConsole 0)))) =
+    [Line (LExec 1); Raw 101; Line (LExec 2); Line (LFail 2 0); Line (LFail 3 2); Raw 301;
+     Line LSep; Line (LSumFail 2 0); Line (LSumErr 2); Line (LSumOut 2); Raw 102] /\
+  chunks_of (w_stderr (snd (fst (report_serial ex19 (fun _ _ => 0) (fun _ => 0) true false 200 [1; 3] ti19 RConsole 0)))) =
+    [Raw 201; Line (LCleanupMsg 1)].
+Proof. vm_compute. auto. Qed.
+
+(* REFUTED on the unchanged code (observation, no output is mixed in and no result is wrong): under the
+   PROCESS runner with --reporter json, what a teardown (or an action, beyond the captured per-task
+   out/err) echoes to sys.stdout / sys.stderr is written into the child's copy of JsonReporter's StringIO
+   and reaches neither the document nor the real streams.  Witness: the same tasks, 2 processes. *)
+Theorem C19_json_worker_output_lost_refuted :
+  exists tasks ti sel,
+  let x := report_parallel tasks (fun _ _ => 0) (fun _ => 0) true false true 200 2 [] sel ti RJson 0 in
+  In (SOut, Raw 301) (w_lost (snd (fst x))) /\
+  (forall d, In (ODoc d) (w_stdout (snd (fst x))) -> ~ In (Raw 301) (d_out d)) /\
+  ~ In (OChunk (Raw 301)) (w_stdout (snd (fst x))) /\
+  (* while the same teardown's ERROR does arrive (forwarded by MReporter.cleanup_error) *)
+  (exists d, w_stdout (snd (fst x)) = [ODoc d] /\ In (Line (LCleanupMsg 1)) (d_err d)).
+Proof.
+  exists ex19, ti19, [1; 3]. vm_compute. split; [auto|]. split; [|split].
+  - intros d [E|[]]. inversion E; subst. simpl. tauto.
+  - intros [E|[]]. discriminate.
+  - eexists. split; [reflexivity|]. simpl. auto.
+Qed.
+Print Assumptions C19_json_worker_output_lost_refuted.
+
+(* doit before commit dcd2dce (fixed since; model of the old behaviour = calls_of_legacy): a teardown failing
+   in a worker process made the run end with a traceback on the real stderr, outside the JSON document *)
+Theorem C19_proc_teardown_error_legacy_refuted :
+  exists tr,
+  let st := run ti19 (init RJson 0) (CInitialize :: calls_of_legacy ti19 true tr) in
+  In (OChunk (Raw tok_crash)) (w_stderr (snd st)) /\
+  (forall d, In (ODoc d) (w_stdout (snd st)) -> ~ In (Line (LCleanupMsg 1)) (d_err d)).
+Proof.
+  exists [EGetStatus 1; EExecute 1; ESave 1; ESuccess 1; ETeardown 1; EClose]. vm_compute. split; [auto|].
+  intros d [E|[]]. inversion E; subst. simpl. tauto.
+Qed.
+Print Assumptions C19_proc_teardown_error_legacy_refuted.
